@@ -134,6 +134,12 @@ def scanEnd (sc : ScanSt) : AMap Key QVal :=
 def scan (t : Timeouts) (now : Nat) (ct : AMap Key Entry) (items : List (Key × Entry)) : AMap Key QVal :=
   scanEnd (items.foldl (fun sc kv => scanEntry t now ct sc kv.1 kv.2) ⟨[], []⟩)
 
+/-- "the fwd key no longer points to the same reverse key" test of `process_ccq_entry`. -/
+def fwdMismatch (ct : AMap Key Entry) (k other : Key) : Bool :=
+  match ct.get k with
+  | some f => decide (f.revKey ≠ other)
+  | none => false
+
 /-- `process_ccq_entry` (the lookup-compare-delete is one atomic step here). -/
 def cleanEntry (ct : AMap Key Entry) (k : Key) (q : QVal) : AMap Key Entry :=
   if q.other.proto = 0 then
@@ -141,10 +147,7 @@ def cleanEntry (ct : AMap Key Entry) (k : Key) (q : QVal) : AMap Key Entry :=
     | some e => if e.lastSeen = q.ts then ct.del k else ct
     | none => ct
   else
-    let mismatch := match ct.get k with
-      | some f => decide (f.revKey ≠ q.other)
-      | none => false
-    if mismatch then ct
+    if fwdMismatch ct k q.other then ct
     else match ct.get q.other with
       | some r => if r.lastSeen = q.revTs then (ct.del q.other).del k else ct
       | none => ct
